@@ -403,6 +403,16 @@ Definition monitor (c : case) : option string :=
                       || existsb (fun p => negb (is_learner p)
                                            && store_is (c_stores c) (fun s => lv_empty (engine_of s) && negb (s_reject s)) (p_store p)) a)
           then Some (pre ++ "leader-to-store-rejecting-leaders")
+          (* ... nor to a store the leaderTarget table excludes (offline, tombstone, down, disconnected, busy, leader transfer
+             paused e.g. by an evict-leader scheduler); grant-leader is judged on the reject-leader clause only (it pauses its own
+             store); scatter only when some voter of the result sits on an ordinary store that does accept leaders *)
+          else if negb (rs_leader fin =? rs_leader s0)
+                  && negb (match c_sched c with SGrantLeader => true | _ => false end)
+                  && negb (store_is (c_stores c) (fun s => sft [TransferLeader] s) (rs_leader fin))
+                  && (negb (is_scatter (c_sched c))
+                      || existsb (fun p => negb (is_learner p)
+                                           && store_is (c_stores c) (fun s => lv_empty (engine_of s) && sft [TransferLeader] s) (p_store p)) a)
+          then Some (pre ++ "leader-to-store-not-accepting-leaders")
           else None
       end
   end.
